@@ -371,9 +371,35 @@ func runC15(c *fw.Ctx) {
 		r := c.Rng(id)
 		sc := gen.GenSyn(r, synCfg(c, r))
 		nonASCII := false
+		layouts := []gen.Layout{}
 		for l := 0; l < gen.NumLayouts; l++ {
-			pr := gen.Print(sc, gen.Layout{Kind: l, R: r})
-			input := func() any { return map[string]any{"text": pr.Text, "layout": l} }
+			layouts = append(layouts, gen.Layout{Kind: l, R: r})
+		}
+		if i%40 == 7 {
+			// one or two comments that make a line longer than 65 536 characters
+			gaps := map[int]bool{r.Intn(8): true, r.Intn(40): true}
+			layouts = append(layouts, gen.Layout{Kind: gen.LayoutLongLine, R: r, Gaps: gaps, Fill: 65500 + r.Intn(70000)})
+			c.Count("long_line_layouts", 1)
+		}
+		for _, lay := range layouts {
+			l := lay.Kind
+			pr := gen.Print(sc, lay)
+			input := func() any {
+				if len(pr.Text) > 4096 {
+					return map[string]any{"script_canonical": gen.PrintCanonical(sc).Text, "layout": l, "long_comment_gaps": fmt.Sprint(lay.Gaps), "long_comment_fill": lay.Fill}
+				}
+				return map[string]any{"text": pr.Text, "layout": l}
+			}
+			// the tree's position ordering must agree with document order on the token starts
+			for t := 1; t < len(pr.TokStart); t++ {
+				a := parser.Position{Line: pr.TokStart[t-1].Line, Character: pr.TokStart[t-1].Char}
+				b := parser.Position{Line: pr.TokStart[t].Line, Character: pr.TokStart[t].Char}
+				if !b.GtEq(a) || a.GtEq(b) {
+					c.Violation("position-order", fmt.Sprintf("Position.GtEq disagrees with document order: %d:%d comes before %d:%d", a.Line, a.Character, b.Line, b.Character), input())
+					return
+				}
+				c.Count("position_pairs_ordered", 1)
+			}
 			for _, ch := range pr.Text {
 				if ch > 127 {
 					nonASCII = true
